@@ -65,12 +65,20 @@ Print Assumptions C17_crlf_keeps_cr.
 
 (* The schedule really ranges over every way of splitting: whatever positive number of
    bytes n (at most the count requested and the bytes left) one wants a read to return,
-   the schedule entry n makes it return exactly those n bytes. *)
+   the schedule entry n makes it return exactly those n bytes; an entry larger than the
+   count requested is served over several reads. *)
 Theorem C17_every_split_is_a_schedule : forall rem sched count n,
   1 <= n <= count -> n <= zlen rem ->
   sys_read (mkStream rem (n :: sched)) count = (ztake n rem, mkStream (zdrop n rem) sched).
 Proof. exact sys_read_any. Qed.
 Print Assumptions C17_every_split_is_a_schedule.
+
+Theorem C17_large_piece_is_clipped : forall rem sched count n,
+  1 <= count < n -> n <= zlen rem ->
+  sys_read (mkStream rem (n :: sched)) count =
+  (ztake count rem, mkStream (zdrop count rem) ((n - count) :: sched)).
+Proof. exact sys_read_clipped. Qed.
+Print Assumptions C17_large_piece_is_clipped.
 
 (* Non-vacuity.  "a\nbc\n" in one piece; byte by byte; a partial last line; an empty line;
    "é" (195 169) split across two reads; CRLF. *)
